@@ -25,7 +25,9 @@
 (***************************************************************************)
 EXTENDS Integers, Sequences, FiniteSets, TLC, Json, IOUtils
 
-CONSTANT FamilySet      \* names of the families to enumerate, or {"*"}
+CONSTANTS FamilySet,    \* names of the families to enumerate, or {"*"}
+          PairMode      \* "listed": cross only the slot pairs a family lists; "all": cross every pair of slots
+                        \*  whose product of alternatives is at most 80 (thorough tier)
 
 Slot(n, alts) == [n |-> n, alts |-> alts]
 Fam(name, prelude, tmpl, slots, pairs, full) ==
@@ -535,8 +537,11 @@ AltsOf(F, s) == (CHOOSE k \in 1..Len(F.slots) : F.slots[k].n = s)
 Default(F) == [s \in SlotNames(F) |-> F.slots[AltsOf(F, s)].alts[1]]
 Singles(F) == { [Default(F) EXCEPT ![F.slots[k].n] = F.slots[k].alts[a]] :
                   <<k, a>> \in {<<k, a>> \in (1..Len(F.slots)) \X (1..200) : a <= Len(F.slots[k].alts)} }
+AllPairs(F) == { <<F.slots[x].n, F.slots[y].n>> : <<x, y>> \in {<<x, y>> \in (1..Len(F.slots)) \X (1..Len(F.slots)) :
+                     x < y /\ Len(F.slots[x].alts) * Len(F.slots[y].alts) <= 80} }
+PairsOf(F) == IF PairMode = "all" /\ ~F.full THEN F.pairs \cup AllPairs(F) ELSE F.pairs
 PairCfgs(F) == UNION { { [Default(F) EXCEPT ![p[1]] = F.slots[AltsOf(F, p[1])].alts[x[1]], ![p[2]] = F.slots[AltsOf(F, p[2])].alts[x[2]]] :
-                           x \in (1..Len(F.slots[AltsOf(F, p[1])].alts)) \X (1..Len(F.slots[AltsOf(F, p[2])].alts)) } : p \in F.pairs }
+                           x \in (1..Len(F.slots[AltsOf(F, p[1])].alts)) \X (1..Len(F.slots[AltsOf(F, p[2])].alts)) } : p \in PairsOf(F) }
 \* every optional field present (second alternative where there is one)
 Full(F) == [s \in SlotNames(F) |-> LET al == F.slots[AltsOf(F, s)].alts IN IF Len(al) >= 2 /\ al[1] = "" THEN al[2] ELSE al[1]]
 Configs(F) == Singles(F) \cup PairCfgs(F) \cup (IF F.full THEN {Full(F)} ELSE {})
@@ -578,6 +583,6 @@ EveryAltCovered ==
 Emit == stage' = 2 =>
   LET F == Families[fam'] IN
   Serialize(ToJson([fam |-> F.name, prelude |-> PreludeOf(F), tmpl |-> F.tmpl, order |-> [k \in 1..Len(F.slots) |-> F.slots[IF rev' THEN Len(F.slots) + 1 - k ELSE k].n],
-                    cfg |-> cfg', derived |-> Derive(F, cfg'), di |-> F.full, repr |-> Representable(F, cfg')]) \o "\n", "modules.ndjson",
+                    cfg |-> cfg', dflt |-> Default(F), derived |-> Derive(F, cfg'), di |-> F.full, repr |-> Representable(F, cfg')]) \o "\n", "modules.ndjson",
             [format |-> "TXT", charset |-> "UTF-8", openOptions |-> <<"WRITE", "CREATE", "APPEND">>]).exitValue = 0
 =============================================================================
